@@ -18,8 +18,8 @@ structure InvB (reqs : Nat → Nat) (s : State) : Prop where
 theorem invB_init (reqs : Nat → Nat) (n0 : Nat) : InvB reqs (init reqs n0) := by
   constructor <;> simp [init, tickets, served]
 
-theorem invB_step {seedVal : Nat → Nat} {reqs : Nat → Nat} {n0 : Nat} {s s' : State} {t : Nat}
-    (ha : InvA seedVal n0 s) (hi : InvB reqs s) (hs : step seedVal s t = some s') : InvB reqs s' := by
+theorem invB_step {sd : Seeding} {seedVal : Nat → Nat} {reqs : Nat → Nat} {n0 : Nat} {s s' : State} {t : Nat}
+    (ha : InvA sd seedVal n0 s) (hi : InvB reqs s) (hs : step sd seedVal s t = some s') : InvB reqs s' := by
   obtain ⟨pendMem, pendOk, pendNodup, perm, order, count⟩ := hi
   cases hpc : (s.thr t).pc <;> simp only [step, hpc] at hs
   case idle =>
@@ -98,7 +98,7 @@ theorem invB_step {seedVal : Nat → Nat} {reqs : Nat → Nat} {n0 : Nat} {s s' 
       simpa [upd_other _ _ hx1] using pendOk x hx
     case pendNodup => exact pendNodup.erase _
     case perm =>
-      show ((s.out ++ [Out.mk t (s.thr t).my s.key]).map outPair ++ s.pend.erase (t, (s.thr t).ticket)).Perm s.acq
+      show ((s.out ++ [Out.mk t (s.thr t).my s.key s.miss]).map outPair ++ s.pend.erase (t, (s.thr t).ticket)).Perm s.acq
       refine List.Perm.trans ?_ perm
       simp only [List.map_append, List.map_cons, List.map_nil, outPair, hmy, List.append_assoc]
       apply List.Perm.append_left
